@@ -249,6 +249,7 @@ class AsyncIOClient(ABC):
         Args:
             nmea2000Message: The NMEA2000Message object to send.
         """
+        writer = None
         try:
             msgs = self._encode_impl(nmea2000Message)
             assert self.writer is not None
@@ -256,15 +257,21 @@ class AsyncIOClient(ABC):
             # messages sent concurrently would interleave on the link
             async with self._send_lock:
                 for msg in msgs:
-                    self.writer.write(msg)
-                    await self.writer.drain()
+                    writer = self.writer
+                    writer.write(msg)
+                    await writer.drain()
                     self.logger.debug(f"Sent: {msg.hex()}")
 
         except (ValueError, NotImplementedError) as ve:
                 # the message cannot be encoded (or this gateway type has no encoder): nothing was written
                 self.logger.warning(f"Failed to encode message. Error {ve}")
         except Exception as ex:
-            if self._state != State.CLOSED:
+            if writer is not None and writer is not self.writer:
+                # the link this write went to has been replaced while the write was suspended: its failure says
+                # nothing about the current connection (reporting DISCONNECTED here, while connect() still holds
+                # the lock, would leave a healthy connection reported as DISCONNECTED for good)
+                self.logger.warning(f"Send failed on a connection that has been replaced meanwhile. Error {ex}")
+            elif self._state != State.CLOSED:
                 self.logger.error(f"Connection lost while sending. Error {ex}. Reconnecting...", exc_info=True)
                 await self._update_state(State.DISCONNECTED)
                 asyncio.create_task(self.connect())
